@@ -36,10 +36,17 @@ def run(prog, R):
     if eb:
         from sym import SymExec, show
         SKD = {d: n for n, d in prog.enum_variants("oq3_parser::syntax_kind::syntax_kind_enum::SyntaxKind")}
-        tg = [bi for bi, t in eb.calls() if (eb.callee_of(t) or "").endswith("Marker::complete") and {og[2] for og in origins(prog, eb, t["args"][2], max_depth=3) if og[0] == "agg"} == {"ASSIGNMENT_STMT"}]
+        import shapes as _shapes
+        MH_ = _shapes.marker_helpers(prog)
+        tg = [bi for bi, t in eb.calls() if ((eb.callee_of(t) or "").endswith("Marker::complete") and {og[2] for og in origins(prog, eb, t["args"][2], max_depth=3) if og[0] == "agg"} == {"ASSIGNMENT_STMT"})
+              or "ASSIGNMENT_STMT" in MH_.get(eb.callee_of(t) or "", ())]
         kinds, unguarded, npth = set(), 0, 0
-        for p_ in SymExec(prog, eb, max_visits=1, max_paths=20000).paths():
-            if not any(x in p_.trace for x in tg):
+        # a helper that is handed the marker and completes the node is looked into; the paths of interest are those
+        # on which a node of kind ASSIGNMENT_STMT is completed
+        def _completes_assignment(p__):
+            return any(c_[0].endswith("Marker::complete") and len(c_[1]) > 2 and show(c_[1][2]).endswith("ASSIGNMENT_STMT") for c_ in p__.calls)
+        for p_ in SymExec(prog, eb, max_visits=1, max_paths=20000, inline=lambda c: c in MH_).paths():
+            if not _completes_assignment(p_):
                 continue
             npth += 1
             ks = [c[2] for c in p_.conds if c[0] == "switch" and show(c[1]).startswith("discr(kind(")]
